@@ -133,8 +133,11 @@ class Sched:
             exc_cls = hh.abort_exc(unit)
             bm = dict(model)
 
+            kept = []
+
             def block():
                 with t.squash_changes() as b:
+                    kept.append(b)
                     for j, o in enumerate(sub):
                         if abort == j:
                             raise exc_cls()
@@ -143,6 +146,13 @@ class Sched:
                         raise exc_cls()
 
             res = cut(block, expect=hh.ALL_ABORTS + (InjectedWriteFailure,))
+            if kept and not isinstance(res, Raised) and self.rnd.random() < 0.3:
+                # the caller kept the batch handle and writes through it after the block has
+                # ended (whatever that does, it must not hurt the database's history)
+                cut(lambda: kept[0].set(b"\x01late", b"written through a stale batch handle" * 2), expect=(Exception,))
+                cut(lambda: kept[0].delete(b"\x01late"), expect=(Exception,))
+                self.ctx.count("late_writes_through_stale_handle")
+                self.check_trace()
             if isinstance(res, Raised):
                 if isinstance(res.exc, InjectedWriteFailure):
                     raise res.exc
